@@ -627,6 +627,12 @@ func (w *World) exec(op string, a M) M {
 			o["issuedType"] = string(resp.IssuedTokenType)
 		}
 		return o
+	case "ClientCreds":
+		tok, err := rp.ClientCredentials(ctx, w.rps[str(a, "rp")].rp, nil)
+		if err != nil || tok == nil || tok.AccessToken == "" {
+			return M{"class": "error", "detail": fmt.Sprint(err)}
+		}
+		return M{"class": "tokens"}
 	case "DeviceStart":
 		id := str(a, "rp")
 		o := M{"class": "error", "dc": "none", "uriOnIssuer": false}
@@ -898,6 +904,9 @@ func (g *gen) next() (string, M) {
 		}
 		a["claim"] = "own"
 		return "Userinfo", a
+	}
+	if g.rng.Intn(8) == 0 {
+		return "ClientCreds", M{"rp": g.pick("cw", "cx", "cj", "cp")}
 	}
 	dn := []string{}
 	for n := range w.devs {
